@@ -111,8 +111,12 @@ class Registry(object):
     self.externals = {}          # dotted name -> V factory
     self.lemmas = []
     self.extra_units = []        # custom verification units (callables)
+    self.closed_classes = set()  # classes whose instance attributes are exactly the declared shape + class members
 
   # ---- declarations
+  def closed(self, *names):
+    self.closed_classes.update(names)
+
   def shape(self, clsname, **fields):
     for k, v in fields.items():
       self.fields[(clsname, k)] = parse_kind(v)
